@@ -148,18 +148,18 @@ def _zero_sized_result(self, axis):
     that already has size zero.
     """
 
+    # Identify the axes to collapse
+    rank = len(self.shape)
     if axis is None:
-        return self.flatten().as_size_zero()
+        axes = list(range(rank))
+    elif isinstance(axis, (list, tuple)):
+        axes = [i % rank for i in axis]
+    else:
+        axes = [axis % rank]
 
-    # Construct an index to obtain the correct shape
-    indx = len(self.shape) * [slice(None)]
-    if isinstance(axis, (list, tuple)):
-        for i in axis:
-            indx[i] = 0
-        else:
-            indx[i] = 0
-
-    return self[tuple(indx)]
+    # Every remaining element has no contributors, so it is masked
+    new_shape = tuple(n for (i,n) in enumerate(self.shape) if i not in axes)
+    return self.masked_single().broadcast_to(new_shape)
 
 #===============================================================================
 @staticmethod
